@@ -105,8 +105,8 @@ def table : List (String × Row) := [
   -- Notes: (1) dft.Evaluator, mod1.Evaluator and blindrot.Evaluator have NO copy constructor: their rows describe the copy
   -- idiom (`NewEvaluator` over a shallow copy of the ckks evaluator, resp. a second `NewEvaluator` instance); the promoted
   -- `blindrot.Evaluator.ShallowCopy` is `rgsw.Evaluator.ShallowCopy` and returns an *rgsw.Evaluator.
-  -- (2) `mpckks.MaskedLinearTransformationProtocol.WithParams` does not carry `noise` over (multiparty/mpckks/transform.go:76-83,
-  -- finding C10/mpckks.MaskedLinearTransformationProtocol.WithParams/drops-noise; with fixes/C10-7 the class becomes `.config`);
+  -- (2) `mpckks.MaskedLinearTransformationProtocol.WithParams` did not carry `noise` over before fix C10-7 (class `.dropped`,
+  -- finding C10/mpckks.MaskedLinearTransformationProtocol.WithParams/drops-noise); with the fix the class is `.config`;
   -- `defaultScale` is recomputed from the new parameters (equal content when they are the old ones, as in the tie).
   -- (3) `ringqp.UniformSampler.AtLevel` wraps level views of its two ring samplers: block buffers, read pointers and PRNG are
   -- shared with the receiver, which its doc comment ("a shallow copy") does not say
@@ -127,7 +127,7 @@ def table : List (String × Row) := [
   ("blindrot.Evaluator.NewEvaluator[second-instance]", [("Evaluator", .nested), ("accumulator", .owned), ("galoisGenDiscreteLog", .owned), ("paramsBR", .sharedRO), ("paramsLWE", .sharedRO), ("poolMod2N", .owned)]),
   ("blindrot.Evaluator.ShallowCopy[promoted:rgsw.Evaluator]", [("Evaluator", .nested)]),
   ("mpbgv.RefreshProtocol.ShallowCopy", [("MaskedTransformProtocol", .nested)]),
-  ("mpckks.MaskedLinearTransformationProtocol.WithParams", [("defaultScale", .owned), ("e2s", .nested), ("encoder", .nested), ("mask", .owned), ("noise", .dropped), ("prec", .config), ("s2e", .nested)]),
+  ("mpckks.MaskedLinearTransformationProtocol.WithParams", [("defaultScale", .owned), ("e2s", .nested), ("encoder", .nested), ("mask", .owned), ("noise", .config), ("prec", .config), ("s2e", .nested)]),
   ("mpckks.RefreshProtocol.ShallowCopy", [("MaskedLinearTransformationProtocol", .nested)]),
   ("dft.Evaluator.NewEvaluator[over-ShallowCopy]", [("Evaluator", .nested), ("LTEvaluator", .nested), ("parameters", .sharedRO)]),
   ("mod1.Evaluator.NewEvaluator[over-ShallowCopy]", [("Evaluator", .nested), ("Parameters", .sharedRO), ("PolynomialEvaluator", .nested)]),
